@@ -361,6 +361,19 @@ _UNKNOWN = object()
 def _cval(e: ast.AST, env: dict, fold=None):
     if isinstance(e, ast.Constant):
         return e.value
+    if isinstance(e, ast.Attribute):
+        d = dotted(e)
+        if d is not None and d in env:
+            return env[d]
+    if isinstance(e, ast.Subscript) and fold is not None:
+        # TABLE[key] with a constant table and a known key
+        base = fold(e.value)
+        key = _cval(e.slice, env, fold)
+        if isinstance(base, dict) and key is not _UNKNOWN and not isinstance(key, _Sym):
+            try:
+                return base[key] if key in base else _UNKNOWN
+            except TypeError:
+                return _UNKNOWN
     if isinstance(e, ast.Name):
         if e.id in env:
             return env[e.id]
@@ -573,3 +586,25 @@ def metadata_savers(ctx):
                             target = ctx.P.lookup_method(owner, e.attr)
                 out.append((fi, n, target))
     return out
+
+
+def folder(ctx, fi: FuncInfo):
+    """A fold callback for const_walk: module-level constants, including dict displays of constants."""
+    def fold(e):
+        v = ctx.P.try_fold(fi.module, e)
+        if v is not None:
+            return v
+        d = ctx.P.dict_literal(fi, e) if isinstance(e, (ast.Name, ast.Attribute, ast.Dict)) else None
+        if d is not None:
+            out = {}
+            for k, val in zip(d.keys, d.values):
+                if k is None:
+                    return None
+                kv = ctx.P.try_fold(fi.module, k)
+                vv = ctx.P.try_fold(fi.module, val)
+                if kv is None or (vv is None and not (isinstance(val, ast.Constant) and val.value is None)):
+                    return None
+                out[kv] = vv
+            return out
+        return None
+    return fold
